@@ -131,6 +131,9 @@ def formatStep (cu : Culture) (used : Nat) (get : Getter) (buf : Text) : Step â†
   | .signNegativeOnly => .ok (if get .sign = 0 then buf else buf ++ ['-'])
   | .amPm count => .ok (buf ++ formatAmPm cu count (get .hours24))
   | .monthText count =>
+    -- (as repaired) a month the culture's table has no entry for â€” months 14 â€¦ 19 of the Badi calendar â€” has no name
+    if get .monthNum â‰¥ (monthTable cu count (genitiveOf used)).length then .ok buf
+    else
     match pyIndex (monthTable cu count (genitiveOf used)) (get .monthNum) with
     | .error e => .error e
     | .ok t => .ok (buf ++ t)
